@@ -462,6 +462,26 @@ class C10Full(core.PropBase):
         # 5. malformed stream
         for _ in range(6000 if thorough else 600):
             yield malformed(rng)
+        # 6. many parameters in total: every template within its own limit of 50 definitions, the templates together far
+        #    beyond it (the parameters of the Job are the union; nothing bounds that)
+        for nj, nes in [(50, [1]), (30, [30]), (0, [30, 30]), (50, [50, 50]), (25, [25]), (49, [1, 1]), (10, [50]), (50, [])] + ([(rng.randint(0, 50), [rng.randint(1, 50) for _ in range(rng.randint(1, 3))]) for _ in range(20)] if thorough else []):
+            def mk(prefix, n):
+                out = []
+                for k in range(n):
+                    ty = rng.choice(["STRING", "INT", "FLOAT", "PATH"])
+                    d = {"name": f"{prefix}{k}", "type": ty}
+                    if rng.random() < 0.8:
+                        d["default"] = {"STRING": "v", "INT": 1, "FLOAT": 1.5, "PATH": "/abs/p"}[ty]
+                    out.append(d)
+                return out
+            defs = mk("J", nj)
+            envs_ = [et(mk(f"E{i}x", n), name=f"Env{i}") for i, n in enumerate(nes)]
+            allp = defs + [d for e in envs_ for d in e["parameterDefinitions"]]
+            need = {d["name"]: {"STRING": "w", "INT": "2", "FLOAT": "2.5", "PATH": "/q"}[d["type"]] for d in allp if "default" not in d}
+            some = dict(need)
+            for d in rng.sample(allp, min(len(allp), 5)):
+                some[d["name"]] = {"STRING": "z", "INT": "3", "FLOAT": "0.5", "PATH": "/r"}[d["type"]]
+            yield case(jt(defs or None), envs_, [call("client", need), call("server", some), call("client", dict(list(need.items())[1:])), call("server", dict(some, Zq="1"))])
 
     def rule(self, tier):
         return ("RAW job template documents x 0-5 RAW environment template documents x calls (mode client|server, job_template_dir, current_working_dir, walk-up flag, value map): "
